@@ -24,6 +24,9 @@ ERROR awkward_ListArray_getitem_next_array_advanced(
       return failure("stops[i] > len(content)", i, kSliceNone, FILENAME(__LINE__));
     }
     int64_t length = fromstops[i] - fromstarts[i];
+    if (fromadvanced[i] < 0  ||  fromadvanced[i] >= lenarray) {
+      return failure("advanced index out of range", i, kSliceNone, FILENAME(__LINE__));
+    }
     int64_t regular_at = fromarray[fromadvanced[i]];
     if (regular_at < 0) {
       regular_at += length;
